@@ -47,6 +47,14 @@ deriving DecidableEq, Repr
 
 def isTxEp (ep : String) : Bool := ep = "CreateTransaction" || ep = "RevertTransaction"
 
+/-- the kind of log each entry point writes -/
+def kindOfEp (ep : String) : Option Kind :=
+  if ep = "CreateTransaction" then some .create
+  else if ep = "RevertTransaction" then some .revert
+  else if ep = "SaveMeta" then some .setMeta
+  else if ep = "DeleteMetadata" then some .delMeta
+  else none
+
 def ansOf (o : String) : Ans := if o = "chained" then .chained else if o = "ikRead" then .ikRead else .preview
 
 def estep' (ep : String) (ph : EPh) : Item → Option EPh
@@ -75,7 +83,7 @@ def estep' (ep : String) (ph : EPh) : Item → Option EPh
     if ph.dry = some true && !ph.al && ph.ans = .no then some { ph with tx := true, pk := .inSeg } else none
   | .act .chainLog _ _ => if !ph.app && (ph.tx || !isTxEp ep) then some { ph with ch := true } else none
   | .act (.append o _) _ _ =>
-    if o = "chained" && ph.dry = some false && ph.ch && !ph.app && !ph.pub then some { ph with app := true, al := false } else none
+    if o = "chained" && ph.dry = some false && ph.ch && !ph.app && !ph.pub && ph.pk = .no then some { ph with app := true, al := false } else none
   | .act (.wait c) _ _ => if c = "persisted" && ph.app then some { ph with dur := true } else some ph
   | .act (.publish k args) _ _ =>
     if ph.dry = some false && k = publishKindOf ep then
